@@ -141,7 +141,27 @@ def monitor_spawn_causes(case, o):
     return out
 
 
+def monitor_slow_hook(case, o):
+    """an async spawn hook that takes 40 ms: the ticket of a control that ends with a spawn (start, restart, ...) resolves after that spawn"""
+    out = []
+    evs = parse_log(o)
+    spawns = [t for t, ev, a in evs if ev == "spawn"]
+    k_spawn = 0
+    for k, op in enumerate(case["ops"]):
+        if op["op"] in ("start", "restart", "restart_with_signal"):
+            if k_spawn >= len(spawns):
+                break
+            tk = o["tickets"][k][0]
+            if tk is None or tk < spawns[k_spawn]:
+                out.append(("C09_ticket_after_effect: the ticket of a control that spawns resolved before the spawn hook had finished and the process was spawned",
+                            f"{op['op']} sent at {op['at']}: ticket at {tk}, spawn at {spawns[k_spawn]}"))
+            k_spawn += 1
+    return out
+
+
 def monitor(case, o):
+    if case.get("monitor_only") == "slow-hook":
+        return monitor_slow_hook(case, o)
     out = monitor_wait(case, o) + monitor_spawn_causes(case, o)
     ops = case["ops"]
     child = case["script"]["children"]
@@ -205,6 +225,17 @@ class C09(C04):
                                {"at": 170, "op": "start", "yield": True}, {"at": 300, "op": "stop", "yield": True}, {"at": 400, "op": "run", "mark": 1, "yield": True}]
                         extra.append({"id": 0, "script": {"children": [dict(c0), dict(later), dict(later), dict(later)], "spawn_fail": fail, "signal_fail": [], "kill_fail": []},
                                       "ops": ops, "waiters": 1, "tail": 1000})
+        # an async spawn hook that awaits: the two-control calls (restart = stop + start) resolve when the last of their controls has run
+        for seq in (["restart"], ["restart_with_signal"], ["restart", "restart"], ["stop", "start", "restart"]):
+            for c0 in (ign, {"self_exit": None, "react": [[15, 5]], "default": None}):
+                ops = [{"at": 0, "op": "start", "yield": True}]
+                for k, nm in enumerate(seq):
+                    op = {"at": 100 + 150 * k, "op": nm, "yield": True}
+                    if "with_signal" in nm:
+                        op.update(sig="Terminate", grace=20)
+                    ops.append(op)
+                extra.append({"id": 0, "monitor_only": "slow-hook", "hook_delay": 40, "script": {"children": [dict(c0)], "spawn_fail": [], "signal_fail": [], "kill_fail": []},
+                              "ops": ops, "waiters": 1, "tail": 1000})
         return job_check(self, "thorough" if deep else tier, seed, monitor, extra)
 
 
